@@ -41,7 +41,7 @@ type c16sub struct {
 func (o *c16obj) acked() int64 { return atomic.LoadInt64(&o.ackStamp) }
 
 func c16(c *wk.Ctx) {
-	c.Note("rule", "each plan hosts a fresh Probe service and runs a PRNG sequence, then 2-8 concurrent goroutines, of: Service.Add (new object), call work(token) through a proxy, SubscribeTick, Service.Remove, remote terminate() through the object's proxy, removal of an already removed id, remote terminate of a removed object, calls after removal. Oracle: ids returned by Add are unique among live objects; for every object whose removal was acknowledged (Remove returned nil / terminate replied): its OnTerminate hook ran exactly once at quiescence (0 for live objects), every call started after the acknowledgement returns an error and never reaches the object (per-token execution counter), its subscribers' channels get closed (quiescence detector); every object still live answers correctly at the end. Stream flood: an object whose method is parked is flooded with 8-40 calls from 3-6 connections (mailbox full, routing goroutines waiting) and is terminated remotely / removed locally in the middle, then released: every call and the termination return, no call runs twice, hook once, later calls fail, the sibling answers on every connection. Stream crowd: one object with 3-24 registrations spread over 1-5 raw connections x 3 signals/properties (+ the generated proxies of a session) is removed or terminates itself: every (connection, signal) with an acknowledged registration receives the termination error, every proxy channel closes, the hook ran once, the sibling answers. Distinct non-trivial = distinct plans with at least one acknowledged removal followed by a call to the removed object.")
+	c.Note("rule", "each plan hosts a fresh Probe service and runs a PRNG sequence, then 2-8 concurrent goroutines, of: Service.Add (new object), call work(token) through a proxy, SubscribeTick, Service.Remove, remote terminate() through the object's proxy, removal of an already removed id, remote terminate of a removed object, calls after removal. Oracle: ids returned by Add are unique among live objects; for every object whose removal was acknowledged (Remove returned nil / terminate replied): its OnTerminate hook ran exactly once at quiescence (0 for live objects), every call started after the acknowledgement returns an error and never reaches the object (per-token execution counter), its subscribers' channels get closed (quiescence detector); every object still live answers correctly at the end. Stream flood: an object whose method is parked is flooded with 8-40 calls from 3-6 connections (mailbox full, routing goroutines waiting) and is terminated remotely / removed locally in the middle, then released: every call and the termination return, no call runs twice, hook once, later calls fail, the sibling answers on every connection. Stream crowd: one object with 3-24 registrations spread over 1-5 raw connections x 3 signals/properties (+ the generated proxies of a session) is removed or terminates itself: (some registrations are cancelled again, one handler id may be tried on two signals) every (connection, signal) with an acknowledged registration still in place receives the termination error, every proxy channel closes, the hook ran once, the sibling answers. Distinct non-trivial = distinct plans with at least one acknowledged removal followed by a call to the removed object.")
 	var w *world
 	defer func() {
 		if w != nil {
@@ -138,7 +138,7 @@ func c16crowd(c *wk.Ctx, i int, rng *rand.Rand, w *world, sess bus.Session, name
 	}
 	var progress int64
 	var mu sync.Mutex
-	want := map[reg]bool{} // acknowledged registrations
+	want := map[reg]int{} // acknowledged registrations still in place, per (connection, signal)
 	told := map[reg]int{}  // termination errors received
 	conns := make([]*rawConn, nConn)
 	for k := range conns {
@@ -161,6 +161,12 @@ func c16crowd(c *wk.Ctx, i int, rng *rand.Rand, w *world, sess bus.Session, name
 	nProxy := 0
 	// registrations, in a PRNG order over connections and signals
 	handler := uint64(rng.Int63())
+	type ackedReg struct {
+		r       reg
+		handler uint64
+	}
+	var acked []ackedReg
+	unregistered, sharedID := 0, 0
 	for k := 0; k < total; k++ {
 		r := reg{rng.Intn(nConn), sigs[rng.Intn(len(sigs))]}
 		handler++
@@ -171,7 +177,54 @@ func c16crowd(c *wk.Ctx, i int, rng *rand.Rand, w *world, sess bus.Session, name
 			return
 		}
 		if f.H.Type == qnet.Reply {
-			want[r] = true
+			want[r]++
+			acked = append(acked, ackedReg{r, handler})
+		}
+		// now and then an acknowledged registration is cancelled again (exactly as it was made)
+		if len(acked) > 0 && rng.Intn(6) == 0 {
+			j := rng.Intn(len(acked))
+			x := acked[j]
+			args := rc.Encode(rc.TupleOf(rc.T(rc.Uint32), rc.T(rc.Uint32), rc.T(rc.Uint64)), rc.Tup{obj, x.r.sig, x.handler})
+			f, err := conns[x.r.conn].call(ps.id, obj, 1, args, nil)
+			if err != nil {
+				c.Inconclusive("crowd", i, "unregisterEvent: "+err.Error())
+				return
+			}
+			if f.H.Type == qnet.Reply {
+				want[x.r]--
+				acked = append(acked[:j], acked[j+1:]...)
+				unregistered++
+			}
+		}
+		// one handler id used for two signals of the object by one connection (the second registration
+		// may be refused); the first one is then cancelled: whatever was acknowledged and not cancelled remains
+		if k == total/3 && rng.Intn(2) == 0 && len(sigs) >= 2 {
+			cn := rng.Intn(nConn)
+			handler++
+			pa := rng.Perm(len(sigs))
+			var mine []ackedReg
+			for _, si := range pa[:2] {
+				r := reg{cn, sigs[si]}
+				args := rc.Encode(rc.TupleOf(rc.T(rc.Uint32), rc.T(rc.Uint32), rc.T(rc.Uint64)), rc.Tup{obj, r.sig, handler})
+				f, err := conns[cn].call(ps.id, obj, 0, args, nil)
+				if err != nil {
+					c.Inconclusive("crowd", i, "registerEvent: "+err.Error())
+					return
+				}
+				if f.H.Type == qnet.Reply {
+					want[r]++
+					mine = append(mine, ackedReg{r, handler})
+				}
+			}
+			if len(mine) > 0 {
+				x := mine[0]
+				args := rc.Encode(rc.TupleOf(rc.T(rc.Uint32), rc.T(rc.Uint32), rc.T(rc.Uint64)), rc.Tup{obj, x.r.sig, x.handler})
+				if f, err := conns[cn].call(ps.id, obj, 1, args, nil); err == nil && f.H.Type == qnet.Reply {
+					want[x.r]--
+					unregistered++
+				}
+				sharedID++
+			}
 		}
 		if useProxies && k == total/2 {
 			watch := func(slot int, closed func()) {
@@ -230,8 +283,8 @@ func c16crowd(c *wk.Ctx, i int, rng *rand.Rand, w *world, sess bus.Session, name
 	allTold := func() bool {
 		mu.Lock()
 		defer mu.Unlock()
-		for r := range want {
-			if told[r] == 0 {
+		for r, n := range want {
+			if n > 0 && told[r] == 0 {
 				return false
 			}
 		}
@@ -247,8 +300,8 @@ func c16crowd(c *wk.Ctx, i int, rng *rand.Rand, w *world, sess bus.Session, name
 	case stuck.Stuck:
 		mu.Lock()
 		missing := ""
-		for r := range want {
-			if told[r] == 0 {
+		for r, n := range want {
+			if n > 0 && told[r] == 0 {
 				missing += fmt.Sprintf("[connection %d signal %d] ", r.conn, r.sig)
 			}
 		}
@@ -278,6 +331,8 @@ func c16crowd(c *wk.Ctx, i int, rng *rand.Rand, w *world, sess bus.Session, name
 		c.Viol("crowd", i, "removed=call-succeeded", "a call after the acknowledged removal succeeded or reached the object", detail)
 	}
 	c.Count("crowd_registrations_acknowledged", int64(len(want)))
+	c.Count("crowd_registrations_cancelled_before_the_removal", int64(unregistered))
+	c.Count("crowd_plans_with_one_handler_id_on_two_signals", int64(sharedID))
 	c.Max("max_registrations_on_one_removed_object", int64(len(want)+nProxy))
 	if len(want)+nProxy >= 3 {
 		c.Nontrivial(wk.Hash64("C16crowd", i))
